@@ -33,6 +33,19 @@ register('map', bp=90, label=('kind test', 'map'), bases=(XPathFunction,),
          pattern=r'(?<!\$)\bmap(?=' + OPTIONAL_COMMENTS + r'(?:\((?!\:)|\{))')
 
 
+def parse_member_type(parser: XPath31Parser) -> XPathToken:
+    """
+    Parses the value type of a map test or the member type of an array test. A typed function
+    test with an occurrence indicator of its own, e.g. '(function(xs:int) as xs:int)*', is
+    not supported: the text of the test is matched by functions that cannot hold it.
+    """
+    token = parser.parse_sequence_type()
+    if token.occurrence and token.label == 'function test' and token.source[:1] == '(':
+        raise token.wrong_syntax("a function test with an occurrence indicator "
+                                 "is not supported as member type")
+    return token
+
+
 @method('map')
 def nud__map_sequence_type_or_constructor(self: XPathFunction) \
         -> Union[XPathToken, XPathMap, XPathArray]:
@@ -53,7 +66,7 @@ def nud__map_sequence_type_or_constructor(self: XPathFunction) \
     if self[0].symbol != '*':
         self.parser.advance(',')
         # the value type is a sequence type: its occurrence indicator is not a lookup operator
-        self.append(self.parser.parse_sequence_type())
+        self.append(parse_member_type(self.parser))
 
     self.parser.advance(')')
     return self
@@ -78,7 +91,7 @@ def nud__sequence_type_or_curly_array_constructor(self: XPathFunction) -> XPathT
     else:
         # the member type is a sequence type (also empty-sequence()): its occurrence
         # indicator is not a lookup operator
-        self[:] = self.parser.parse_sequence_type(),
+        self[:] = parse_member_type(self.parser),
     self.parser.advance(')')
     self.parser.parse_occurrence(self)
     return self
